@@ -144,7 +144,7 @@ def main():
         }],
         "checks": checks,
         "not_applicable": na,
-        "notes": "All checks: ./check <id> <quick|thorough>; VERIF_SEED selects the PRNG seed; exit 0 held / 1 violation / 2 build failure / 3 inconclusive. fix: commits in /repo: 7ab483f, 163be93, c6b24ce, af8bac7, 88f7899 (see known_findings.json). 266 seeded changes (seeded/) and 114 property-preserving variants (benign/) document what the checks catch and what they stay silent on (DESIGN.md 12-21).",
+        "notes": "All checks: ./check <id> <quick|thorough>; VERIF_SEED selects the PRNG seed; exit 0 held / 1 violation / 2 build failure / 3 inconclusive. fix: commits in /repo: 7ab483f, 163be93, c6b24ce, af8bac7, 88f7899 (see known_findings.json). 304 seeded changes (seeded/) and 114 property-preserving variants (benign/) document what the checks catch and what they stay silent on (DESIGN.md 12-23).",
     }
     json.dump(m, open(os.path.join(HERE, "MANIFEST.json"), "w"), indent=1)
     print("MANIFEST.json: %d checks, %d not_applicable" % (len(checks), len(na)))
